@@ -21,11 +21,27 @@
  * Static functions (of_addmul1) are reached by including the library sources
  * from the staged copy of the working tree (-I<bdir>/src); link with objs=[].
  */
+/* KD_KID = n builds a driver for kernel n only (only its translation unit is included): used when the complete
+ * driver does not build because one of the routines no longer exists under its name in the tree */
+#ifndef KD_KID
+#define KD_HAS(n) 1
+#else
+#define KD_HAS(n) (KD_KID == (n))
+#endif
 #include "lib_common/of_mem.c"
+#if KD_HAS(3)
 #include "lib_stable/reed-solomon_gf_2_8/of_reed-solomon_gf_2_8.c"
+#endif
+#if KD_HAS(5) || KD_HAS(6)
 #include "lib_stable/reed-solomon_gf_2_m/galois_field_codes_utils/algebra_2_4.c"
+#endif
+#if KD_HAS(4)
 #include "lib_stable/reed-solomon_gf_2_m/galois_field_codes_utils/algebra_2_8.c"
+#endif
+#if KD_HAS(0) || KD_HAS(1) || KD_HAS(2)
 #include "lib_common/linear_binary_codes_utils/of_symbol.c"
+#endif
+#include "lib_common/of_openfec_api.h"
 
 #ifdef OF_DEBUG
 #error "kernel_driver expects the non-OF_DEBUG kernel signatures"
@@ -254,21 +270,36 @@ static void do_run(const struct group *g, long r)
 	}
 	void **ptab = NULL;
 	switch (g_kid) {
+#if KD_HAS(0)
 	case 0: of_add_to_symbol(buf[0], buf[1], (UINT32)sz); break;
+#endif
+#if KD_HAS(1)
 	case 1:
 		ptab = malloc((size_t)ns * sizeof(void *));     /* exact size: reading from[n] aborts */
 		for (int s = 0; s < ns; s++) ptab[s] = buf[nd + s];
 		of_add_from_multiple_symbols(buf[0], (const void **)ptab, (UINT32)ns, (UINT32)sz);
 		break;
+#endif
+#if KD_HAS(2)
 	case 2:
 		ptab = malloc((size_t)nd * sizeof(void *));
 		for (int d = 0; d < nd; d++) ptab[d] = buf[d];
 		of_add_to_multiple_symbols(ptab, buf[nd], (UINT32)nd, (UINT32)sz);
 		break;
+#endif
+#if KD_HAS(3)
 	case 3: of_addmul1(buf[0], buf[1], (gf)g->c, (int)sz); break;
+#endif
+#if KD_HAS(4)
 	case 4: of_galois_field_2_8_addmul1(buf[0], buf[1], (gf)g->c, (int)sz); break;
+#endif
+#if KD_HAS(5)
 	case 5: of_galois_field_2_4_addmul1(buf[0], buf[1], (gf)g->c, (int)sz); break;
+#endif
+#if KD_HAS(6)
 	case 6: of_galois_field_2_4_addmul1_compact(buf[0], buf[1], (gf)g->c, (int)sz); break;
+#endif
+	default: _exit(9);
 	}
 	free(ptab);
 	eb_head(&e, a, nb, v, 0, "");
@@ -310,7 +341,9 @@ static void asan_death(void) { _exit(42); }
 static void child(void)
 {
 	if (__asan_set_death_callback) __asan_set_death_callback(asan_death);
+#if KD_HAS(3)
 	of_rs_init();
+#endif
 	while (S->group < NG) {
 		const struct group *g = &G[S->group];
 		long nr = runs_of(g);
